@@ -392,6 +392,33 @@ func runC18(r *Rng, n int, tier string) {
 		}
 		emit(c18GenCase(next("conf"), files, []string{"config:" + c.tag}, kn, nil))
 	}
+	// ---- gen: option values. Every string-valued option of an override / package with malformed contents
+	for i := 0; i < n/2+25; i++ {
+		gt := randGoTypeSpec(r)
+		ov := fmt.Sprintf(`{"column":"t.id","go_type":%s}`, gt)
+		switch r.Intn(6) {
+		case 0:
+			ov = fmt.Sprintf(`{"db_type":%s,"go_type":%s}`, jsonStr(r.Pick([]string{"", ".", "pg_catalog.", ".int8", "a.b.c", "int8[]", " ", "pg_catalog.int8"})), gt)
+		case 1:
+			ov = fmt.Sprintf(`{"column":%s,"go_type":%s}`, jsonStr(r.Pick([]string{"", ".", "t.", ".id", "a.b.c.d", "a.b.c.d.e", "t..id", "*.id", "t.*", " t.id"})), gt)
+		}
+		pkgExtra := ""
+		if r.Chance(25) {
+			pkgExtra = fmt.Sprintf(`,"name":%s`, jsonStr(r.Pick([]string{"", "db", "9db", "d-b", "type", "DB", "d b", "é"})))
+		}
+		if r.Chance(15) {
+			pkgExtra += fmt.Sprintf(`,"emit_json_tags":true,"json_tags_case_style":%s`, jsonStr(r.Pick([]string{"", "camel", "pascal", "snake", "Camel", "kebab"})))
+		}
+		body := fmt.Sprintf(`{"version":"1","packages":[{"path":"db","engine":"postgresql","schema":"schema.sql","queries":"query.sql","overrides":[%s]%s}]}`, ov, pkgExtra)
+		if r.Chance(30) {
+			body = fmt.Sprintf(`{"version":"2","sql":[{"engine":"postgresql","schema":"schema.sql","queries":"query.sql","gen":{"go":{"out":"db","package":"db","overrides":[%s]}}}]}`, ov)
+		} else if r.Chance(20) {
+			body = fmt.Sprintf(`{"version":"1","overrides":[%s],"rename":{%s:%s},"packages":[{"path":"db","engine":"postgresql","schema":"schema.sql","queries":"query.sql"}]}`, ov,
+				jsonStr(r.Pick([]string{"id", "", "t.id", "ID"})), jsonStr(r.Pick([]string{"Ident", "", "9x", "a b", "type"})))
+		}
+		files := map[string]string{"schema.sql": okSchema, "query.sql": okQuery, "sqlc.json": body}
+		emit(c18GenCase(next("opt"), files, []string{"config:option-values"}, nil, nil))
+	}
 	// ---- gen: file-system conditions
 	conf := `{"version":"1","packages":[{"path":"db","engine":"postgresql","schema":"schema","queries":"queries"}]}`
 	fsCases := []struct {
